@@ -13,14 +13,18 @@
      C02_partial_literal    the same for a 32-bit literal as right side;
      C02_parse_correct      operator precedence and left associativity of the parser;
      C02_optimize_correct   optimize_const preserves the meaning of EVERY operation list;
-     C02_lowering_correct / C02_lowering_wf   the lowering, for EVERY operation list.
+     C02_lowering_correct / C02_lowering_wf   the lowering, for EVERY operation list;
+     C02_target_spelling_irrelevant / C02_spelling_irrelevant   a selector `obj:@e[tag=x, limit=1]` is
+                            its CLEANED text (`score_of`, `clean_sel`): target and operands written
+                            with different blanks / line breaks are the same score for `eval`, for
+                            "does the target occur in the expression" and for the emitted commands.
 
    The full statement for all expressions is still false in one way: `**` accepts only a constant,
    non-negative exponent (C02_refuted_pow_nonconst). *)
 From Coq Require Import ZArith String List Bool.
-From JMCV Require Import Base.Int32 Base.Dec MC.Syntax MC.Sem Model.Names Model.VarOp Proofs.VarOp
+From JMCV Require Import Base.Int32 Base.Dec MC.Syntax MC.Sem MC.Print Model.Names Model.VarOp Proofs.VarOp
      Model.Expr Model.ExprSpec Model.ExprFront Model.ExprBack
-     Proofs.ExprLower Proofs.ExprRefute Proofs.ExprParse Proofs.ExprOps Proofs.ExprOpt Proofs.ExprClean Proofs.ExprSmall.
+     Proofs.ExprLower Proofs.ExprRefute Proofs.ExprParse Proofs.ExprOps Proofs.ExprOpt Proofs.ExprClean Proofs.ExprSmall Proofs.ExprSpell.
 Import ListNotations.
 Open Scope Z_scope.
 
@@ -122,6 +126,58 @@ Theorem C02_partial_literal :
           stg st' = stg st /\ tr st' = tr st.
 Proof. exact partial_literal. Qed.
 Print Assumptions C02_partial_literal.
+
+(* ------------------------------------------------------------------ selector spelling *)
+(* `SObjSel o s` carries the selector as WRITTEN in the source; `score_of` (used for the target in every
+   theorem above, for each operand by tokens_to_tokens and by `eval`) cleans it with `clean_sel`
+   (clean_up_paren_token: blanks, tabs, line breaks outside double-quoted strings removed).  Hence
+   C02_partial already covers `obj:@e[tag=x, limit=1] := $a * 2 + obj:@e[tag=x,limit=1]`: both
+   spellings are ONE score, read before it is written.  Made explicit:
+   two spellings that clean to the same text are the same score, have the same meaning, and as
+   targets give the same output for every form and expression; cleaning is idempotent. *)
+Theorem C02_target_spelling_irrelevant :
+  forall nm o s1 s2, clean_sel s1 = clean_sel s2 ->
+    score_of nm (SObjSel o s1) = score_of nm (SObjSel o s2) /\
+    (forall rdv, eval nm rdv (EVar (SObjSel o s1)) = eval nm rdv (EVar (SObjSel o s2))) /\
+    (forall form e, compile_expr nm (score_of nm (SObjSel o s1)) form e
+                    = compile_expr nm (score_of nm (SObjSel o s2)) form e).
+Proof. exact spelling_irrelevant. Qed.
+Print Assumptions C02_target_spelling_irrelevant.
+
+Theorem C02_clean_sel_idempotent : forall s, clean_sel (clean_sel s) = clean_sel s.
+Proof. exact clean_sel_idem. Qed.
+Print Assumptions C02_clean_sel_idempotent.
+
+(* For EVERY expression (any operators, literals, parentheses — not only the fragment of C02_partial),
+   target and form: re-spelling all selectors, target and operands independently (`f` may send
+   different occurrences' spellings to different spellings as long as each keeps its score), changes
+   neither the meaning nor anything the pipeline produces (commands, constants, tags, diagnostic). *)
+Theorem C02_spelling_irrelevant :
+  forall nm f target form e, same_scores nm f ->
+    score_of nm (f target) = score_of nm target /\
+    (forall rdv, eval nm rdv (respell f e) = eval nm rdv e) /\
+    compile_expr nm (score_of nm (f target)) form (respell f e) = compile_expr nm (score_of nm target) form e.
+Proof. exact respell_irrelevant. Qed.
+Print Assumptions C02_spelling_irrelevant.
+
+(* non-vacuity: writing every selector compactly is such an f *)
+Example C02_spelling_nonvacuous : forall nm, same_scores nm canon_svar.
+Proof. exact canon_same_scores. Qed.
+Print Assumptions C02_spelling_nonvacuous.
+
+(* `obj:@e[tag=x, limit=1] := $a * 2 + obj:@e[tag=x,<line break> limit=1 ]` (spell_t, spell_t': two different
+   spellings of the holder `@e[tag=x,limit=1]`; w_spell: a = 6, old target = 1): the model emits
+       __temp0__ = $a;  __temp0__ *= 2;  @e[tag=x,limit=1] obj += __temp0__
+   — the target is read (by `+=`) before anything is written to it — and the target ends as 13 = 6 * 2 + 1
+   (a compiler that compared the raw spellings would emit `target = $a; target *= 2; target += <operand>`:
+   the old value 1 is lost before it is read). *)
+Example C02_spelling_example :
+  score_of nm0 spell_t = spell_holder /\ score_of nm0 spell_t' = spell_holder /\
+  spell_t <> spell_t' /\
+  (exists cmds ints, model_run w_spell = (Ok (cmds, ints), []) /\ pr_cmds cmds = spell_text) /\
+  expected w_spell = Some 13 /\ holds_b w_spell = true.
+Proof. exact spell_example. Qed.
+Print Assumptions C02_spelling_example.
 
 (* ------------------------------------------------------------------ what is still false *)
 (* `violates w t` (Proofs/ExprRefute.v): the statement w, compiled by the model, fires tag t and
